@@ -113,8 +113,16 @@ func (eng *Engine) VerifyFunction(fn *ssa.Function, con *Contract) (fx *FuncExec
 	rets := fx.lastRets
 	if con != nil {
 		for _, a := range con.Anchors {
-			if !fx.anchorHit[a.Anchor+"/"+a.Label] {
+			if !fx.anchorHit[con.Func+"|"+a.Anchor+"/"+a.Label] {
 				fx.addObl("shape", "anchor:"+a.Label, "anchor "+a.Anchor+" does not match any call in the function", er, ts.False())
+			}
+		}
+		// anchors of the inline contracts of closures and helpers that were inlined
+		for c := range fx.inlinedCons {
+			for _, a := range c.Anchors {
+				if !fx.anchorHit[c.Func+"|"+a.Anchor+"/"+a.Label] {
+					fx.addObl("shape", "anchor:"+a.Label, "anchor "+a.Anchor+" of "+c.Func+" does not match any call in it", er, ts.False())
+				}
 			}
 		}
 	}
